@@ -287,6 +287,10 @@ func runC11(r *Run) {
 			}
 			transcriptCheck(r, in)
 			r.Discharge()
+			if k == 1 {
+				transcriptCheckCfg(r, perturbConfig(in), true)
+				r.Discharge()
+			}
 		}
 	}
 	r.Bounds["one_step"] = "states are compared up to observational equivalence (buffered outputs are dead while inputs are pending); every operation from every buffer-length pair (thorough: all 72; quick: the 17 reachable ones + 2 mixed), symbolic contents and sponge state: an inductive step, so histories of any length"
@@ -323,7 +327,30 @@ func (c *twiceCircuit) Define(api frontend.API) error {
 	return nil
 }
 
-func transcriptCheck(r *Run, in *instance) {
+func transcriptCheck(r *Run, in *instance) { transcriptCheckCfg(r, in, false) }
+
+// perturbConfig returns the instance with every description field the transcript does not depend on in
+// plonky2 (everything but num_challenges; the proof itself is unchanged) set to another, distinct value.
+func perturbConfig(in *instance) *instance {
+	p := *in
+	p.Name = in.Name + "/other-config"
+	c := in.Common
+	c.Config.NumConstants += 3
+	c.Config.NumWires += 5
+	c.Config.NumRoutedWires += 7
+	c.Config.SecurityBits += 11
+	c.Config.MaxQuotientDegreeFactor += 13
+	c.NumConstants += 17
+	c.NumGateConstraints += 19
+	c.NumPartialProducts += 23
+	c.QuotientDegreeFactor += 29
+	p.Common = c
+	return &p
+}
+
+// transcriptCheckCfg: with perturbed set, the instance carries description fields the transcript must not
+// depend on; the later phases of Verify may then fail, which is of no concern once the challenges exist.
+func transcriptCheckCfg(r *Run, in *instance, perturbed bool) {
 	var got *variables.ProofChallenges
 	var pih *poseidon.GoldilocksHashOut
 	extra := transcriptHooks()
@@ -335,11 +362,15 @@ func transcriptCheck(r *Run, in *instance) {
 		got = &c
 	})
 	w := walkVerifier(in, walkOpts{Wrapper: "verifier", Cap: capPlain, Field: true, PermGL: true, PermBN: true, NoShape: true, Extra: extra})
-	if w.Panic != "" || w.Err != nil {
+	if (w.Panic != "" || w.Err != nil) && !(perturbed && got != nil && pih != nil) {
+		if perturbed {
+			r.Infra("%s: the walk stops before the challenges are derived: %s %v", in.Name, short(w.Panic, 160), w.Err)
+			return
+		}
 		walkFailed(r, in, "verifier", w)
 		return
 	}
-	{
+	if !perturbed {
 		// a second transcript on the same chip starts from a fresh challenger, as every proof does in
 		// plonky2: on the real code (gnark test engine), two GetChallenges calls on one chip with the same
 		// proof must give the same challenges
@@ -446,6 +477,10 @@ func transcriptCheck(r *Run, in *instance) {
 		}
 		if diff >= 0 {
 			label := p.label
+			if perturbed {
+				r.addViolationStructural("transcript depends on unrelated description fields", fmt.Sprintf("%s: with description fields other than num_challenges changed (num_constants, num_wires, num_routed_wires, security_bits, max_quotient_degree_factor, num_gate_constraints, num_partial_products, quotient_degree_factor) challenge %s is no longer the one plonky2's transcript yields", in.Name, label))
+				return
+			}
 			// replay: the real circuit must reject the honest proof if its challenges differ from plonky2's
 			cr := &circuitReplay{Kind: "circuit", Wrapper: "verifier", Instance: in.Base, K: in.K, Expect: "rejected"}
 			acc, msg := runCircuitReplay(cr, r.Repo)
@@ -460,6 +495,13 @@ func transcriptCheck(r *Run, in *instance) {
 			return
 		}
 		r.Infra("%s: challenge %s agrees with the reference at all sample points but no proof was found", in.Name, p.label)
+	}
+	if perturbed {
+		st := q.stats()
+		st["challenges_compared"] = len(pairs)
+		st["instance"] = in.Name
+		r.Sample(st)
+		return
 	}
 	// explicit binding queries: one element of every kind of proof data influences the next challenge drawn
 	kinds := []struct{ leaf, next string }{
